@@ -33,8 +33,9 @@ ASSUMPTIONS = [
 ]
 REQUIRE = {"steps_ns2d": 6, "steps_ns3d": 6, "steps_passive": 4, "clock_checks": 16, "forcing_zero_checks": 4}
 
-POOL2 = [(14, 19), (16, 23), (22, 17), (13, 12), (24, 15), (18, 21), (12, 20), (20, 13)]
-POOL3 = [(10, 11, 13), (12, 10, 14), (11, 13, 12), (13, 12, 10), (10, 14, 11), (14, 11, 12)]
+# the last two of each pool have ONE LONG AXIS (> 32 cells): seams of slab-/block-wise processing only exist there
+POOL2 = [(14, 19), (16, 23), (22, 17), (13, 12), (24, 15), (18, 21), (12, 20), (20, 13), (41, 12), (12, 37)]
+POOL3 = [(10, 11, 13), (12, 10, 14), (11, 13, 12), (13, 12, 10), (10, 14, 11), (14, 11, 12), (35, 9, 10), (10, 34, 9)]
 XR = [1.0, 1.3, 0.37, 6.283185307179586]
 FILTERS = [None, (1, "multiplicative"), (2, "multiplicative"), (3, "multiplicative"), (1, "convolution"), (2, "convolution"), (3, "convolution")]
 
@@ -99,6 +100,11 @@ def run_shard(sh, rec):
             pool = POOL2 if d == 2 else POOL3
             cnt = seen.get(d, 0)
             seen[d] = cnt + 1
+            if c.get("solver") == "fast_diagonalisation":
+                # the rounding error of the fast-diagonalisation solver grows like n^2 eps (LAPACK eigenvectors; C11 carries that bound),
+                # which the perturbation-spread noise floor of this check does not model: a (10, 34, 9) grid reached err/tol 0.78 on
+                # the unchanged tree.  Long axes for that solver are C11's business; here it keeps the compact shapes.
+                pool = pool[:-2]
             shape = pool[(int(sh_base) + cnt // 2) % len(pool)]
             xr_idx = cnt % len(XR)
         xr = XR[int(rng.integers(len(XR)))] if (tier == "thorough" and c["rep"] > 0) else XR[xr_idx]
@@ -114,6 +120,8 @@ def run_shard(sh, rec):
                    via_factory=(c["cid"] % 3 == 1))  # every third configuration is built through the documented factory functions
         if cfg["via_factory"] and kind != "passive":
             rec.count("simulators_built_via_factory_function")
+        if max(shape) > 32:
+            rec.count("simulators_with_one_long_axis")
         label = {k: cfg[k] for k in ("kind", "shape", "x_range", "dtype", "forcing", "free_stream", "width", "filter", "solver", "field_type")}
         try:
             sim = sims.build(cfg)
@@ -196,6 +204,8 @@ def run_shard(sh, rec):
             ru = util.err_over_tol(sim.velocity_field, ur, tu)
             rec.stat(f"{kind}_primary", rw)
             rec.stat(f"{kind}_velocity", ru)
+            if max(rw, ru) > 0.2:
+                rec.note(f"ratio>0.2: rw={rw:.3g} ru={ru:.3g} state={skind} dt={dt:.3g} nu={nu:.3g} rho={rho:.3g} cfg={label}")
             changed = util.maxabs(wr - w0.astype(np.float64)) > tw and (kind == "passive" or util.maxabs(ur - u0.astype(np.float64)) > tu)
             cls = (kind, c["dtype"], cfg["forcing"], cfg["free_stream"], cfg["width"], str(cfg["filter"]), cfg["solver"][:5], cfg["field_type"], skind)
             rec.case(cls if changed else None, sample={**label, "state": skind, "dt": dt, "nu": nu, "rho": rho, "err_over_tol": [rw, ru]})
